@@ -145,14 +145,26 @@ func VerifRun_C18b() {
 	// a short history of create/delete events of f1
 	present := startsWith
 	for k := 0; k < verifParam("EVENTS"); k++ {
-		if present {
-			verifVFSDel(f1)
-			p.HandleFileEventChanges([]check.FileEventStruct{{StrFile: f1, Type: check.FileEventDeleted}})
+		if verifBool("shortlived") {
+			// one notification carrying two events for the file that leave its existence as it was: a
+			// short-lived file (created and deleted again before the server looks), resp. a file replaced
+			// (deleted and re-created)
+			if present {
+				verifVFSPut(f1, []byte("return 3\n"))
+				p.HandleFileEventChanges([]check.FileEventStruct{{StrFile: f1, Type: check.FileEventDeleted}, {StrFile: f1, Type: check.FileEventCreated}})
+			} else {
+				p.HandleFileEventChanges([]check.FileEventStruct{{StrFile: f1, Type: check.FileEventCreated}, {StrFile: f1, Type: check.FileEventDeleted}})
+			}
 		} else {
-			verifVFSPut(f1, []byte("return 1\n"))
-			p.HandleFileEventChanges([]check.FileEventStruct{{StrFile: f1, Type: check.FileEventCreated}})
+			if present {
+				verifVFSDel(f1)
+				p.HandleFileEventChanges([]check.FileEventStruct{{StrFile: f1, Type: check.FileEventDeleted}})
+			} else {
+				verifVFSPut(f1, []byte("return 1\n"))
+				p.HandleFileEventChanges([]check.FileEventStruct{{StrFile: f1, Type: check.FileEventCreated}})
+			}
+			present = !present
 		}
-		present = !present
 		if verifBool("touchmain") {
 			// the requiring file itself is announced as changed afterwards (saved again by the user)
 			p.HandleFileEventChanges([]check.FileEventStruct{{StrFile: mainF, Type: check.FileEventChanged}})
